@@ -6,9 +6,11 @@ pub mod gen;
 pub mod macros;
 
 pub mod c03;
+pub mod c06;
 
 pub fn registry() -> Vec<&'static macros::Entry> {
     let mut v = Vec::new();
     v.extend(c03::registry());
+    v.extend(c06::registry());
     v
 }
